@@ -42,13 +42,14 @@ rows = [re.sub(r"^### (C\d+)\n", lambda m: "### %s — %s\n" % (m.group(1), titl
 out = tmpl.replace("<<PROPERTY_TABLE>>", "\n".join(rows))
 
 # ---- seeds ---------------------------------------------------------------------------------------------------------
-det = {}
+det, first = {}, {}
 p = os.path.join(V, "seeded/detect.log")
 if os.path.exists(p):
     for l in open(p):
-        m = re.match(r"(C\d+_\d+) tier=(\w+) rc=(\d+) violations=(\d+) :: (.*)", l.strip())
+        m = re.match(r"(C\d+_(?:r2_)?\d+) tier=(\w+) rc=(\d+) violations=(\d+) :: (.*)", l.strip())
         if m:
             det[m.group(1)] = m.groups()      # last run wins
+            first.setdefault(m.group(1), m.groups())
 lines = ["| seed | what it needs to manifest | caught by (quick tier) |", "|---|---|---|"]
 for d_ in sorted(glob.glob(os.path.join(V, "seeded/C*_*"))):
     sid = os.path.basename(d_)
@@ -63,6 +64,8 @@ for d_ in sorted(glob.glob(os.path.join(V, "seeded/C*_*"))):
     elif g[2] == "1":
         clauses = sorted(set(re.findall(r"clause=([^ ]+)", g[4])))[:4]
         caught = "yes: " + ", ".join("`%s`" % c for c in clauses)
+        if first.get(sid, g)[2] != "1":
+            caught += " — *missed (exit %s) before the check was strengthened*" % first[sid][2]
     else:
         caught = "**no** (exit %s)" % g[2]
     lines.append("| %s | %s | %s |" % (sid, needs, caught))
